@@ -1,0 +1,9 @@
+//go:build verif
+
+package code93
+
+// Hooks for the verification harness in /verif (build tag `verif` only).
+
+func VerifGetChecksum(content string, maxWeight int) rune { return getChecksum(content, maxWeight) }
+
+func VerifPrepare(content string) (string, error) { return prepare(content) }
